@@ -51,6 +51,7 @@ func makeDeadline(d time.Duration) fasttime {
 	// Increase the deadline since the clock we are reading may be
 	// just about to tick forwards.
 	end := fast.current.read() + durationToTicks(d+clockPeriod)
+	verifClockPoint(1)
 
 	// Start or extend clock if necessary.
 	if end > clockEnd {
@@ -69,6 +70,7 @@ func makeDeadline(d time.Duration) fasttime {
 		end = fast.current.read() + durationToTicks(d+clockPeriod)
 		extendClock(end)
 		fast.mu.Unlock()
+		verifClockPoint(2)
 	}
 
 	return end
